@@ -420,6 +420,24 @@ func (fr *Frame) sliceOp(n *ssa.Slice) {
 		}
 		fr.safety("bounds", And(Le(IntLit(0), lo), Le(lo, hi), Le(hi, mx), Le(mx, N)), "slice-bounds")
 		p := x.ptrOf(xv)
+		if p.Local != nil && len(p.Path) == 0 && !p.Elem && fr.localArrayNeverStoredAfter(p.Local, n) {
+			// a local array that is not written after this point (e.g. digest := sha256.Sum256(..); digest[:]):
+			// the slice is a fresh object holding a snapshot of the array. Writes through the slice would not be
+			// reflected in the array, but the array is never read or written again through its own name.
+			st := fr.cur
+			cur := x.Load(st, p)
+			el := at.Elem()
+			if lay := x.eng.layout(el); len(lay) == len(cur.C) {
+				ref := x.newRef(st, "arrslice")
+				for j := range lay {
+					key, _ := x.eng.heapKey("M", el, j)
+					x.heapSetAt(st, key, c.Name("M", Store(x.heapGet(st, key), ref, cur.C[j])), ref)
+				}
+				c.Note(fr.fn.Name() + ": slice of a local array modelled as a snapshot (the array is not used afterwards)")
+				fr.set(n, &Value{T: n.Type(), C: []Term{ref, lo, c.Name("len", Sub(hi, lo)), c.Name("cap", Sub(mx, lo))}})
+				return
+			}
+		}
 		if p.Local != nil || p.Global != nil || p.Elem || len(p.Path) > 0 {
 			// slicing an array that does not live in element memory: abstract
 			c.Note(fr.fn.Name() + ": slice of embedded/local array abstracted")
@@ -430,6 +448,49 @@ func (fr *Frame) sliceOp(n *ssa.Slice) {
 	default:
 		fr.unsupported("Slice on %v", xv.T)
 	}
+}
+
+// localArrayNeverStoredAfter: the local array cell is neither stored to nor has its address taken for indexing anywhere
+// in the function other than by (a) stores that dominate the slice instruction and (b) this slice instruction itself.
+func (fr *Frame) localArrayNeverStoredAfter(a *ssa.Alloc, at *ssa.Slice) bool {
+	refs := a.Referrers()
+	if refs == nil {
+		return false
+	}
+	for _, r := range *refs {
+		switch u := r.(type) {
+		case *ssa.Slice:
+			if u != at {
+				return false
+			}
+		case *ssa.Store:
+			if u.Addr != ssa.Value(a) {
+				return false
+			}
+			if u.Block() == at.Block() {
+				// must come before the slice instruction in the same block
+				before := false
+				for _, in := range u.Block().Instrs {
+					if in == ssa.Instruction(u) {
+						before = true
+						break
+					}
+					if in == ssa.Instruction(at) {
+						break
+					}
+				}
+				if !before {
+					return false
+				}
+			} else if !u.Block().Dominates(at.Block()) {
+				return false
+			}
+		case *ssa.DebugRef:
+		default:
+			return false // loads, index addresses, calls: the array is used through its own name
+		}
+	}
+	return true
 }
 
 func (fr *Frame) unop(n *ssa.UnOp) {
